@@ -6,6 +6,7 @@ replays every case on the model and on the history spec, and judges
 -/
 import Kap.Spec.C09
 import Kap.Driver.C09Svc
+import Kap.Driver.C09Agg
 open Kap Kap.C09
 
 namespace Kap.C09.Drv
@@ -128,4 +129,6 @@ def isSvc (ls : Array String) : Bool :=
     | t :: _ => t == "srec" || t == "sreg" || t == "sdereg" || t == "supd" || t == "scollect"
     | [] => false)
 
-def main : IO Unit := Kap.driverMain (fun id ls => if isSvc ls then Kap.C09.SvcDrv.judge id ls else Kap.C09.Drv.judge id ls)
+def main : IO Unit := Kap.driverMain (fun id ls =>
+  if Kap.C09.AggDrv.isAgg ls then Kap.C09.AggDrv.judge id ls
+  else if isSvc ls then Kap.C09.SvcDrv.judge id ls else Kap.C09.Drv.judge id ls)
